@@ -166,6 +166,68 @@ func runModifiers(r *common.Run, st *stats) {
 	r.Set("modifier_shapes", int(shapes))
 }
 
+// runFullySpecified: OPTIONAL clauses whose S, P and O are constants and that carry TWO
+// aliases: one named like a binding of the base (a join key, repeated in the base rows of
+// the designed graphs) and one new. The planner joins these through the table's
+// sort-merge left join.
+func fsOptClauses() []bqlm.Clause {
+	var opts []bqlm.Clause
+	for _, s := range []bqlm.Term{{Kind: bqlm.Const, N: bqlm.NA}, {Kind: bqlm.Const, N: bqlm.NC}} {
+		for _, p := range []bqlm.Term{{Kind: bqlm.Const, P: bqlm.PImm}, {Kind: bqlm.Const, P: bqlm.PT1}, {Kind: bqlm.Const, P: bqlm.QImm}} {
+			for _, o := range []bqlm.Term{{Kind: bqlm.Const, N: bqlm.NB}, {Kind: bqlm.Const, N: bqlm.NC}, {Kind: bqlm.Const, O: model.OL(bqlm.LInt)}, {Kind: bqlm.Const, P: bqlm.PT1}} {
+				opts = append(opts, bqlm.Clause{S: s, P: p, O: o, Optional: true})
+			}
+		}
+	}
+	return opts
+}
+
+func fsOptCase(bi, oi, mi, mj, ni int) []bqlm.Clause {
+	base := bqlm.Namings([]bqlm.Clause{reprBases()[bi]})[0][0]
+	names := append(base.Bindings(), "?n0")
+	o := fsOptClauses()[oi]
+	ms := bqlm.ModifiersFor(o)
+	return []bqlm.Clause{base, bqlm.WithModifier(bqlm.WithModifier(o, ms[mi], names[ni]), ms[mj], "?n1")}
+}
+
+func runFullySpecified(r *common.Run, st *stats) {
+	gs := graphs()
+	stores := make([]storage.Store, len(gs))
+	for i, g := range gs {
+		stores[i] = bqlm.NewStore(g)
+	}
+	opts := fsOptClauses()
+	var shapes int64
+	common.ParallelFor(len(opts), func(oi int) {
+		for bi, b := range reprBases() {
+			named := bqlm.Namings([]bqlm.Clause{b})[0]
+			base := named[0]
+			names := append(base.Bindings(), "?n0")
+			ms := bqlm.ModifiersFor(opts[oi])
+			for mi := range ms {
+				for mj := range ms {
+					if mi == mj {
+						continue
+					}
+					for ni, n1 := range names {
+						cs := []bqlm.Clause{base, bqlm.WithModifier(bqlm.WithModifier(opts[oi], ms[mi], n1), ms[mj], "?n1")}
+						q := &bqlm.Query{From: []string{"?g"}, Where: cs, Proj: bqlm.SelectAll(cs)}
+						atomic.AddInt64(&shapes, 1)
+						for gi := range gs {
+							if r.OutOfTime() {
+								return
+							}
+							v := check(q, stores[gi], gs[gi])
+							report(r, st, "fsopt", fmt.Sprintf("fsopt:%d:%d:%d:%d:%d:%d", bi, oi, mi, mj, ni, gi), q, gs[gi], v)
+						}
+					}
+				}
+			}
+		}
+	})
+	r.Set("fully_specified_optional_shapes", int(shapes))
+}
+
 // reduced clause vocabulary for sequences of two optional clauses.
 func reducedClauses() []bqlm.Clause {
 	ss := []bqlm.Term{{Kind: bqlm.Const, N: bqlm.NA}, {Kind: bqlm.Bind}}
@@ -272,6 +334,9 @@ func replay(raw json.RawMessage) (bool, string) {
 		o1.Optional, o2.Optional = true, true
 		cs = bqlm.Namings([]bqlm.Clause{reprBases()[n[0]], o1, o2})[n[3]]
 		gi = n[4]
+	case "fsopt":
+		cs = fsOptCase(n[0], n[1], n[2], n[3], n[4])
+		gi = n[5]
 	default:
 		return false, "unknown case kind"
 	}
@@ -282,7 +347,7 @@ func replay(raw json.RawMessage) (bool, string) {
 
 func main() {
 	r := common.Start("C10", "model_checking")
-	for _, k := range []string{"pair", "mod", "triple"} {
+	for _, k := range []string{"pair", "mod", "triple", "fsopt"} {
 		r.Replayer(k, replay)
 	}
 	r.MaybeReplay()
@@ -290,6 +355,7 @@ func main() {
 	runPairs(r, st)
 	runModifiers(r, st)
 	runTriples(r, st)
+	runFullySpecified(r, st)
 	r.Set("evaluations", int(st.evals))
 	r.Set("accepted_by_parser", int(st.accepted))
 	r.Set("distinct_nontrivial", int(st.nontrivial))
